@@ -130,20 +130,30 @@ def run(tier, seed):
     env_repo = dict(os.environ)
     os.environ["VERIF_REPO"] = V.REPO
     # builtin.go in sync with builtin.jq
-    rc, out, cases, st_sync = V.run_harness("c03", "sync", seed, 0, tier, name="c03sync")
+    rc, out, cases, st_sync = V.run_harness("c03", "sync", seed, 0, tier, name="c03sync_%d" % os.getpid())
+    cleanup = [cases]
     if rc != 0:
         c.broken_correspondence("harness-run sync", None, V.tail(out, 40))
     for v in (st_sync.get("impl_violations") or []):
         c.failing_input("builtin.go is not in sync with builtin.jq", v, v)
     c.evaluations += int(st_sync.get("definitions") or 0)
     # natives and operators
-    rc, out, cases, st = V.run_harness("c03", "c03", seed, 0, tier, timeout=3000)
+    rc, out, cases, st = V.run_harness("c03", "c03", seed, 0, tier, timeout=3000, name="c03_%d" % os.getpid())
+    cleanup.append(cases)
     nreal = nspec = 0
     if rc != 0:
         c.broken_correspondence("harness-run", None, V.tail(out, 40))
     else:
         harness_violations(c, st)
         skipped, nreal, nspec = run_cases(c, exe_m, cases, "c03", st)
+    # case files are per process (concurrent runs of this check must not share them) and removed afterwards
+    for cpath in cleanup:
+        base = cpath[:-len(".cases")]
+        for suffix in (".cases", ".cases.sel", ".cases.sel.spec", ".stats.json"):
+            try:
+                os.remove(base + suffix)
+            except OSError:
+                pass
     dist = st.pop("distribution", {}) if st else {}
     rule = ("for every native of internalFuncs with a callback (%d name/arity pairs; jq-defined builtins are covered by the sync "
             "comparison): all inputs of a %s-value universe for arity 0, core x core (%s values) plus sampled pairs for arity 1 and for the "
